@@ -191,14 +191,19 @@ theorem ckd_pub_spec (C : WalletCrypto) (w : HDWallet) (i : Nat) (P Q : Nat × N
       simp [Spec.Bip32.fingerprint, Spec.Bip32.serP, hk]
 
 /-- Public derivation commutes with private derivation: for a well-formed private key w (scalar k,
-    k ≢ 0 mod n) and a NON-hardened index i < 2³¹, `Pub(Child(w,i)) = Child(Pub(w),i)` — both as results
-    (including the case where both are the point at infinity, which the model marks `.outside`).
+    k ≢ 0 mod n) and a NON-hardened index i < 2³¹, `Pub(Child(w,i)) = Child(Pub(w),i)` — both as results —
+    with ONE exception, stated as the second alternative: when the child is the point at infinity (I_L + k ≡ 0
+    mod n, the index BIP32 calls invalid; exactly the case of `child_pub_refuses_iff`) NEITHER side yields a key:
+    the public side panics ("Invalid public key": `BaseMultiplyAdd` reports false at the point at infinity since
+    the `fix:` commit for C08's api-basemultiplyadd-identity) and the private side holds the scalar 0, whose
+    public key is nil (`.outside`). Before that commit both sides handed out stale coordinates.
     UNCONDITIONAL: the group-law facts the first version took as hypotheses — (a+k mod n)·G = a·G + k·G
     and parse(serP(P)) = P — are now theorems (`mul_add_mod_G`, `parse_ser33` in Proofs/C14Curve.lean,
     derived from C03's `reference_curve_group_law`, `generator_order` and `parsePubkey_ser33`). -/
 theorem pub_commutes (C : WalletCrypto) (w : HDWallet) (k i : Nat)
     (hw : PrivWF w k) (hi : i < 2 ^ 31) (hk0 : k % Secp.n ≠ 0) :
-    (child C w i >>= pub) = (pub w >>= fun pw => child C pw i) := by
+    (child C w i >>= pub) = (pub w >>= fun pw => child C pw i) ∨
+    ((child C w i >>= pub) = .error .outside ∧ (pub w >>= fun pw => child C pw i) = .error .panic) := by
   obtain ⟨P, hP⟩ := mul_G_some k hk0
   have hparse : Secp.parsePubkey (Secp.ser33 (some P)) = some P :=
     parse_ser33 P (by rw [← hP]; exact mul_G_onCurve k)
@@ -230,8 +235,8 @@ theorem pub_commutes (C : WalletCrypto) (w : HDWallet) (k i : Nat)
   rw [hval, hsum]
   simp only [hparse]
   cases hsumv : Secp.add (Secp.mul (beVal (ha.take 32)) Secp.G) (some P) with
-  | none => simp [serPoint]
-  | some Q => simp [serPoint]
+  | none => right; simp [serPoint]
+  | some Q => left; simp [serPoint]
 
 /-- non-vacuity of `PrivWF` / `k ≢ 0`: the extended key with scalar 1 -/
 example : PrivWF { chCode := List.replicate 32 0, key := 0 :: Spec.Bip32.ser256 1, pfx := Gen.HDConsts.pfxPrivate,
@@ -250,10 +255,11 @@ example : (Spec.Bip32.ckdPriv (fun _ _ => List.replicate 64 1) 1 (List.replicate
   decide +kernel
 
 /-- The region where `Child` on a private key leaves the model, exactly: for a well-formed private key with
-    scalar k and any i < 2³², `Child` is `.outside` (gocoin serialises stale coordinates as the "public key")
-    IF AND ONLY IF k ≡ 0 mod n; otherwise it returns a key (`child_priv_never_skips`). So the "outside"
-    marking of the private side is one residue class — the harness keeps its generators out of it and
-    replays BaseMultiply(0) as an observation. -/
+    scalar k and any i < 2³², `Child` is `.outside` (`PublicFromPrivate` returns nil — `BaseMultiply` reports
+    false at the point at infinity since the `fix:` commit for C08's api-basemultiply-identity — and gocoin
+    goes on deriving from the nil public key) IF AND ONLY IF k ≡ 0 mod n; otherwise it returns a key
+    (`child_priv_never_skips`). So the "outside" marking of the private side is one residue class — the harness
+    runs the real code there and judges it by the BIP32 reference only. -/
 theorem child_priv_outside_iff (C : WalletCrypto) (w : HDWallet) (k i : Nat)
     (hw : PrivWF w k) (hi : i < 2 ^ 32) :
     child C w i = .error .outside ↔ k % Secp.n = 0 := by
@@ -271,12 +277,14 @@ example : PrivWF { chCode := List.replicate 32 0, key := 0 :: Spec.Bip32.ser256 
                    idx := 0, checksum := [0, 0, 0, 0], depth := 0 } 0 := ⟨by decide, rfl, by decide⟩
 
 /-- The same for the public side: for the public extended key of the scalar k (key = serP(k·G), k ≢ 0) and
-    a non-hardened i, `Child` is `.outside` IF AND ONLY IF I_L + k ≡ 0 mod n (the sum is the point at
-    infinity — BIP32 says "invalid, proceed with the next i"; gocoin returns stale coordinates); otherwise
-    it returns a key. -/
-theorem child_pub_outside_iff (C : WalletCrypto) (w : HDWallet) (k i : Nat) (P : Nat × Nat)
+    a non-hardened i, `Child` PANICS ("HDWallet.Child(): Invalid public key") IF AND ONLY IF I_L + k ≡ 0 mod n
+    (the sum is the point at infinity — BIP32 says "invalid, proceed with the next i"; `BaseMultiplyAdd` reports
+    false there since the `fix:` commit for C08's finding api-basemultiplyadd-identity — before it, gocoin
+    handed out stale coordinates (−G for k = 1) as the child key and the model marked the case `.outside`);
+    otherwise it returns a key. -/
+theorem child_pub_refuses_iff (C : WalletCrypto) (w : HDWallet) (k i : Nat) (P : Nat × Nat)
     (hw : PubWF w P) (hP : Secp.mul k Secp.G = some P) (hi : i < 2 ^ 31) :
-    (child C w i = .error .outside ↔
+    (child C w i = .error .panic ↔
       (beVal ((C.hmac512 w.chCode (w.key ++ beBytes 4 i)).take 32) + k) % Secp.n = 0) ∧
     ((beVal ((C.hmac512 w.chCode (w.key ++ beBytes 4 i)).take 32) + k) % Secp.n ≠ 0 → ∃ w', child C w i = .ok w') := by
   have hon : Secp.onCurve (some P) = true := by rw [← hP]; exact mul_G_onCurve k
